@@ -575,6 +575,26 @@ func (c *c07) buildCases(thorough bool) []*c07Case {
 			cs.expect = "REFUND"
 			cases = append(cases, cs)
 		}
+		// the first deposit ever of a denom (nothing registered for it yet), incl. an empty one and a denom of maximal length
+		for di, fresh := range []string{"ufresh", "factory/" + strings.Repeat("q", 120)} {
+			for _, amt := range []int64{0, 1_000_000} {
+				for _, payload := range []string{"none", "random-bytes"} {
+					cs := &c07Case{name: fmt.Sprintf("%s/%d/%s/first-deposit-of-denom-%d", r.name, amt, payload, di)}
+					cs.msg = e.DepositMsg(ex, seq, "l1sender-fresh", r.to, fresh, math.NewInt(amt), nil)
+					if payload == "random-bytes" {
+						cs.msg.Data = c.rng.Bytes(24)
+					}
+					if amt == 0 {
+						cs.expect = "" // an empty deposit is credited or refunded; both are legal outcomes for any recipient
+					} else if r.good && payload == "none" {
+						cs.expect = "CREDIT"
+					} else {
+						cs.expect = "REFUND"
+					}
+					cases = append(cases, cs)
+				}
+			}
+		}
 		for _, payload := range []string{"none", "random-bytes"} {
 			cs := &c07Case{name: r.name + "/mid/" + payload + "/premeta-denom"}
 			cs.msg = e.DepositMsg(ex, seq, "l1sender-premeta", r.to, "upremeta", math.NewInt(1_000_000), nil)
